@@ -395,6 +395,13 @@ def gen_spec(base_seed, i, W):
     spec = {"table": K, "threads": threads, "policy": policy, "seed": "%d:schedsim:sched:%d" % (base_seed, i),
             "budget": 50 * total + 20000, "probes": probes, "theme": theme, "info": info,
             "wall": 600.0 if gran else 240.0, "pre": list(pre)}
+    if i % 16 in (2, 9, 13) and not gran and not info["flood"]:
+        # warm start: the same calls were served once, serially, under another table before the
+        # table in force was set (a rng of its own: the rest of the run is what it was)
+        wrng = random.Random("%d:schedsim:warm:%d" % (base_seed, i))
+        K0 = gen_table(wrng)
+        if K0 != K:
+            spec["warm"] = [list(K0) if K0 else None, [list(c) for c in probes[:4]]]
     return spec, alone
 
 
@@ -484,6 +491,7 @@ def run_one(base_seed, i, want_sample=False):
                    "fault_thread_stalled": rec["stalls_fired"], "shared_access_switches": rec["shared_switches"],
                    "fault_thread_held_before_store_of_tested_global": rec.get("holds_fired", 0),
                    "fault_thread_parked_inside_exception_path": rec.get("exc_parks", 0),
+                   "warm_start_under_another_table": 1 if spec.get("warm") else 0,
                    "double_augmenting_path_runs": 1 if rec["double_aug"] else 0},
         "oracle_queries": W.oracle.queries - q0, "oracle_hits": W.oracle.hits - h0,
         "fault_free": False, "violation": None,
